@@ -17,8 +17,8 @@ macro "split_step" h:ident : tactic => `(tactic| (
     `hpc : s.s = <constructor>` and an explicit post-state -/
 macro "s_cases" hs:ident s:ident hpc:ident : tactic => `(tactic| (
   rcases $hpc:ident : ($s).s with _ | _ | _ | ⟨(_ | cp | cp | cp | ⟨t, (_ | _ | _)⟩)⟩ | _ | t | t | st | ⟨st, (_ | _ | _)⟩ |
-    k | k | c | c | c | c | ⟨c, e⟩ | ⟨t, v⟩ | ⟨t, v, (_ | _ | _)⟩
-  all_goals simp only [stepS, $hpc:ident, hubK, fsK, dispatch, afterIdle, userNext, setTask, Bool.false_eq_true, reduceIte] at $hs:ident
+    k | k | c | c | c | c | ⟨c, e⟩ | ⟨t, v⟩ | ⟨t, v, (_ | _ | _)⟩ | _ | t | t | t | ⟨t, c⟩ | ⟨t, c, (_ | _ | _)⟩ | t | t | t
+  all_goals simp only [stepS, $hpc:ident, hubK, fsK, dispatch, afterIdle, userNext, setTask, alloc, Bool.false_eq_true, reduceIte] at $hs:ident
   all_goals split_step $hs))
 
 /-- transitions of the hub thread: `hs : stepH s = some s'` -/
@@ -43,7 +43,7 @@ macro "t_cases" hs:ident s:ident tid:ident hpc:ident : tactic => `(tactic| (
   case' succ.succ => simp only [stepT] at $hs:ident; cases $hs:ident
   case' zero =>
     rcases $hpc:ident : ($s).s with _ | _ | _ | ⟨(_ | cp | cp | cp | ⟨t, p⟩)⟩ | _ | t | t | st | ⟨st, p⟩ |
-      k | k | c | c | c | c | ⟨c, e⟩ | ⟨t, v⟩ | ⟨t, v, p⟩
+      k | k | c | c | c | c | ⟨c, e⟩ | ⟨t, v⟩ | ⟨t, v, p⟩ | _ | t | t | t | ⟨t, c⟩ | ⟨t, c, p⟩ | t | t | t
     all_goals simp only [stepT, $hpc:ident] at $hs:ident
     all_goals split_step $hs
   case' succ.zero =>
@@ -107,40 +107,56 @@ structure InvA (s : State) : Prop where
   onS : ∀ p ∈ s.executed, p.2 = 0
   nodup : s.submitted.Nodup
   order : ∀ i f, s.fs[i]? = some f → (s.submitted.filter (·.by_ = i + 2)).map (·.seq) = List.range f.nsub
+  /-- the calls handed over by cooperative code (on the scheduler thread, tid 0) -/
+  order0 : (s.submitted.filter (·.by_ = 0)).map (·.seq) = List.range s.snsub
 
 theorem stepS_A {s s' : State} (h : InvA s) (hs : stepS s = some s') : InvA s' := by
-  obtain ⟨h1, h2, h3, h4⟩ := h
+  obtain ⟨h1, h2, h3, h4, h5⟩ := h
   s_cases hs s hpc
   all_goals simp only [hpc, inflightPc] at h1
   all_goals first
-    | exact ⟨h1, h2, h3, h4⟩
+    | exact ⟨h1, h2, h3, h4, h5⟩
     | skip
   · -- cltPop, a call is taken from the deque
     rename_i hc
-    exact ⟨by simpa [inflightPc, hc] using h1, h2, h3, h4⟩
+    exact ⟨by simpa [inflightPc, hc] using h1, h2, h3, h4, h5⟩
   · -- cltCall, the popped call is executed on this thread
-    refine ⟨by simpa [inflightPc] using h1, ?_, h3, h4⟩
+    refine ⟨by simpa [inflightPc] using h1, ?_, h3, h4, h5⟩
     intro p hp
     rcases List.mem_append.mp hp with hp | hp
     · exact h2 p hp
     · simp at hp; subst hp; rfl
+  · -- ucAppend: hand-over by cooperative code
+    have hnew : (⟨0, s.snsub⟩ : Call) ∉ s.submitted := by
+      intro hm
+      have : s.snsub ∈ (s.submitted.filter (·.by_ = 0)).map (·.seq) :=
+        List.mem_map.mpr ⟨⟨0, s.snsub⟩, List.mem_filter.mpr ⟨hm, by simp⟩, rfl⟩
+      rw [h5] at this
+      simp at this
+    refine ⟨?_, h2, ?_, ?_, ?_⟩
+    · simp only [h1, inflightPc, List.append_assoc]
+    · exact List.nodup_append.mpr ⟨h3, by simp, by
+        intro a ha b hb; simp at hb; subst hb; intro hab; subst hab; exact hnew ha⟩
+    · intro j g hg
+      simp [List.filter_append, h4 j g hg]
+    · simp [List.filter_append, h5, List.range_succ]
 
 theorem stepH_A {s s' : State} (h : InvA s) (hs : stepH s = some s') : InvA s' := by
-  obtain ⟨h1, h2, h3, h4⟩ := h
+  obtain ⟨h1, h2, h3, h4, h5⟩ := h
   h_cases hs s hpc
-  all_goals exact ⟨h1, h2, h3, h4⟩
+  all_goals exact ⟨h1, h2, h3, h4, h5⟩
 
 theorem stepT_A {s s' : State} {t : Tid} (h : InvA s) (hs : stepT s t = some s') : InvA s' := by
-  obtain ⟨h1, h2, h3, h4⟩ := h
+  obtain ⟨h1, h2, h3, h4, h5⟩ := h
   t_cases hs s t hpc
   all_goals simp only [hpc, inflightPc] at h1
-  all_goals exact ⟨h1, h2, h3, h4⟩
+  all_goals exact ⟨h1, h2, h3, h4, h5⟩
 
 theorem stepF_A {s s' : State} {i : Nat} (h : InvA s) (hs : stepF s i = some s') : InvA s' := by
-  obtain ⟨h1, h2, h3, h4⟩ := h
+  obtain ⟨h1, h2, h3, h4, h5⟩ := h
   f_cases hs s i f hf hpc
   all_goals first
-    | exact ⟨h1, h2, h3, forall_set hf h4 (h4 i f hf)⟩
+    | exact ⟨h1, h2, h3, forall_set hf h4 (h4 i f hf), h5⟩
     | skip
   -- clAppend: the hand-over
   have hnew : (⟨i + 2, f.nsub⟩ : Call) ∉ s.submitted := by
@@ -149,7 +165,7 @@ theorem stepF_A {s s' : State} {i : Nat} (h : InvA s) (hs : stepF s i = some s')
       List.mem_map.mpr ⟨⟨i + 2, f.nsub⟩, List.mem_filter.mpr ⟨hm, by simp⟩, rfl⟩
     rw [h4 i f hf] at this
     simp at this
-  refine ⟨?_, h2, ?_, ?_⟩
+  refine ⟨?_, h2, ?_, ?_, by simp [List.filter_append, h5]⟩
   · simp only [h1, List.append_assoc]
   · exact List.nodup_append.mpr ⟨h3, by simp, by
       intro a ha b hb; simp at hb; subst hb; intro hab; subst hab; exact hnew ha⟩
@@ -170,7 +186,7 @@ theorem stepF_A {s s' : State} {i : Nat} (h : InvA s) (hs : stepF s i = some s')
 
 theorem init_A (threaded : Bool) (users : List (List UItem)) (progs : List (List Op)) :
     InvA (Handoff.init threaded users progs) := by
-  refine ⟨rfl, by simp [Handoff.init], by simp [Handoff.init], ?_⟩
+  refine ⟨rfl, by simp [Handoff.init], by simp [Handoff.init], ?_, by simp [Handoff.init]⟩
   intro i f hf
   simp only [Handoff.init, List.getElem?_map] at hf
   rcases hp : progs[i]? with _ | p
@@ -272,6 +288,7 @@ theorem stepS_Sy {s s' : State} (h : InvSy s) (hs : stepS s = some s') : InvSy s
   all_goals first
     | exact h.frameS rfl (fun _ => rfl) (Or.inr (by intro k hk; rw [hpc] at hk; cases hk))
     | exact h.frameS rfl (viewT_set_same (by assumption) (by rfl)) (Or.inr (by intro k hk; rw [hpc] at hk; cases hk))
+    | exact h.frameS rfl (viewT_append_none rfl) (Or.inr (by intro k hk; rw [hpc] at hk; cases hk))
     | skip
   · -- syRelIn k : `self.inlock.release()`
     rename_i k _ o u ph hk
